@@ -5,7 +5,7 @@ from __future__ import annotations
 import ast
 from typing import Dict, List, Set
 
-from ..astutil import call_name, calls, enclosing_loops, guards, last_attr, stmt_key, txt, walk_local
+from ..astutil import call_name, calls, enclosing_loops, guards, kwarg, last_attr, stmt_key, txt, walk_local
 from ..cfg import CFG
 from ..flow import bound_from
 from ..index import AnalysisError, dotted
@@ -407,7 +407,50 @@ def r08_4(ctx: Ctx) -> None:
         raise AnalysisError(f"{qual}: the nested-gene look-ahead was not found")
 
 
+def r08_7(ctx: Ctx) -> None:
+    """ the multi-part branch of the lookup honours `with_overlapping`: genes gathered per part (overlapping each part) are
+        filtered down to the contained ones only when overlaps were not asked for """
+    from ..flow import path_facts
+    qual = "Record.get_cds_features_within_location"
+    func = ctx.fn(REC, qual)
+    cfg = CFG(func)
+    flag = func.args.args[2].arg if len(func.args.args) > 2 else "with_overlapping"
+    loc = func.args.args[1].arg
+    from ..flow import effective_compare, oriented
+
+    def several_parts(expr: ast.AST, truth: bool) -> bool:
+        cmp_ = effective_compare(expr, truth)
+        cmp_ = oriented(cmp_, lambda e: txt(e) == f"len({loc}.parts)") if cmp_ else None
+        return cmp_ is not None and (cmp_[1], txt(cmp_[2])) in ((">", "1"), (">=", "2"), ("!=", "1"))
+    multi = [r for r in walk_local(func) if isinstance(r, ast.Return) and r.value is not None
+             and any(several_parts(e, t) for e, t in path_facts(cfg, r))]
+    if not multi:
+        raise AnalysisError(f"{qual}: no return under a test on the number of parts of the location")
+    for index, ret in enumerate(multi):
+        facts = {(txt(e), t) for e, t in path_facts(cfg, ret)}
+        narrowed = any(isinstance(c, ast.Call) and last_attr(c) == "is_contained_by" and c.args and txt(c.args[0]) == loc
+                       for c in ast.walk(ret.value))
+        if narrowed:
+            ok = (flag, False) in facts
+            why = "keeps only contained genes" + ("" if ok else f" although `{flag}` may be set")
+        else:
+            ok = (flag, True) in facts
+            why = "all genes overlapping a part" + ("" if ok else f" although `{flag}` may be unset")
+        ctx.ob("R08.7", REC, ret, qual, f"multi-part result#{index}", ok,
+               "for a location of several parts (an origin-spanning one) the genes overlapping any part are returned when overlaps "
+               "are asked for, and only the contained ones otherwise",
+               detail="" if ok else f"with genes c [900:960) d [940:990) x join{{[970:1000),[0:30)}} a [10:40) b [50:110) on a ring of 1000 the "
+               f"overlapping query join{{[950:1000),[0:60)}} must return c d x a b", form=why)
+    per_part = [c for c in calls(func) if last_attr(c) == "get_cds_features_within_location" and kwarg(c, "with_overlapping") is not None]
+    ok = bool(per_part) and all(txt(kwarg(c, "with_overlapping")) == "True" for c in per_part)
+    ctx.ob("R08.7", REC, per_part[0] if per_part else func, qual, "per-part lookups gather overlaps", ok,
+           "each part is searched with overlaps included (a gene may be contained in the location without being contained in one part)",
+           form="; ".join(txt(c)[:70] for c in per_part))
+
+
 def run(ctx: Ctx) -> None:
+    ctx.rule("R08.7", "the multi-part lookup honours with_overlapping", floor=2)
+    r08_7(ctx)
     ctx.rule("R08.4", "the lookup's look-ahead follows nesting in the current gene", floor=1)
     ctx.rule("R08.1", "gene-after-area and area-after-gene linking visit the same collections, on every path", floor=14)
     ctx.rule("R08.2", "add_cds refuses, forwards to children, and records defining genes under core and product", floor=6)
